@@ -58,12 +58,15 @@ def gen_abstract_impls(s):
     return '\n'.join(out)
 
 
-def build(repo, vc_files=None, canary=False, skip=frozenset()):
+def build(repo, vc_files=None, canary=False, skip=frozenset(), bare=frozenset()):
     s, counts = ex.extract(repo)
     if vc_files is None:
         vc_files = sorted(glob.glob(os.path.join(ROOT, 'contracts', '*.vc')))
     impls = gen_abstract_impls(s)
+    inj.BARE.clear()
+    inj.BARE.update(bare)
     s, info = inj.inject(s, vc_files, skip)
+    inj.BARE.clear()
     info['skipped'] = sorted(skip)
     if canary:
         s = add_canaries(s, info)
